@@ -288,6 +288,21 @@ func (fx *FX) callContract(st *State, v ssa.Value, callee *ssa.Function, fc *Fun
 			ce.params[fv.Name()] = cell
 		}
 	}
+	// closures passed for function-typed parameters declared pure: their contract describes apply(closure)
+	for i, p := range callee.Params {
+		name := p.Name()
+		if i < len(fc.Params) {
+			name = fc.Params[i]
+		}
+		if !fc.PureFn[name] || i >= len(args) {
+			continue
+		}
+		fv, ok := args[i].(VFunc)
+		if !ok {
+			continue
+		}
+		fx.assumeClosureContract(st, fv, p.Type(), g, pos)
+	}
 	env := ce.env(fx, st)
 	for _, l := range fc.Lets {
 		env.bound[l.Name] = fx.evalExpr(env, l.E)
@@ -511,4 +526,57 @@ func qualName(fn *ssa.Function) string {
 		return fn.String()
 	}
 	return fn.Pkg.Pkg.Name() + "." + strings.TrimPrefix(fn.RelString(fn.Pkg.Pkg), "")
+}
+
+// assumeClosureContract: the results apply(fv) of a pure function value satisfy the contract
+// of the function literal it was made from, with the captured variables read at this point.
+func (fx *FX) assumeClosureContract(st *State, fv VFunc, ft types.Type, g T, pos token.Pos) {
+	id, ok := isLit(fv.Id)
+	if !ok || id < 1 || id > int64(len(fx.u.fnList)) {
+		fx.note("function value passed for a pure parameter is not a literal closure: nothing known about its result")
+		return
+	}
+	fn := fx.u.fnList[id-1]
+	fc := fx.u.contractOf(fn)
+	if fc == nil {
+		fx.note("closure %s has no contract: nothing known about its result", fn.Name())
+		return
+	}
+	fc.Used = true
+	sig := ft.Underlying().(*types.Signature)
+	var rt types.Type = sig.Results()
+	if sig.Results().Len() == 1 {
+		rt = sig.Results().At(0).Type()
+	}
+	res := fx.u.pureApply(fx, fv, rt)
+	ce := &calleeEnv{caller: fx, callee: fn, fc: fc, st: st.clone(), params: map[string]Val{}}
+	off := int64(0)
+	for _, v := range fn.FreeVars {
+		cp, _ := unflatten(v.Type(), fx.loadLeaves(st, fv.Env, num(off), v.Type()))
+		off += sizeOf(v.Type())
+		if pt, ok := v.Type().(*types.Pointer); ok {
+			p := cp.(VPtr)
+			cell, _ := unflatten(pt.Elem(), fx.loadLeaves(st, p.Ref, p.Off, pt.Elem()))
+			ce.params[v.Name()] = cell
+		}
+	}
+	env := ce.env(fx, st)
+	for _, l := range fc.Lets {
+		env.bound[l.Name] = fx.evalExpr(env, l.E)
+	}
+	for i, r := range fc.Requires {
+		fx.oblige("pre", fmt.Sprintf("%s.%d", fn.Name(), i+1), g, fx.evalBool(env, r.E), pos, r.Src)
+	}
+	names := resultNamesOf(fn, fc)
+	if tup, ok := res.(VTuple); ok {
+		for i, e := range tup.E {
+			env.bound[names[i]] = e
+		}
+	} else {
+		env.bound[names[0]] = res
+		env.bound["result"] = res
+	}
+	for _, e := range fc.Ensures {
+		fx.assume(g, fx.evalBool(env, e.E))
+	}
 }
